@@ -200,7 +200,18 @@ fn expression_strigify_write<'s, W: FmtWrite>(
             dot_location,
             field_location,
         } => {
+            // a number literal needs parentheses here: `5.p` would be read as the number `5.` followed by `p`
+            let is_number = matches!(
+                &**obj,
+                Expression::LitInt { .. } | Expression::LitFloat { .. }
+            );
+            if is_number {
+                stringifier.write_str("(")?;
+            }
             expression_strigify_write(obj, stringifier, ExpressionLevel::Member)?;
+            if is_number {
+                stringifier.write_str(")")?;
+            }
             stringifier.write_token(".", None, dot_location)?;
             stringifier.write_token(&field_name, Some(&field_name), field_location)?;
         }
